@@ -367,6 +367,20 @@ impl World {
                     }
                     crate::heapwatch::sync(self);
                     self.ev(0x10, q as u64, ((head as u64) << 16) | pos as u64);
+                    if let Some(mut dev) = self.dev.take() {
+                        {
+                            let mut ctx = DevCtx {
+                                hal: &mut self.hal,
+                                tr: &mut self.tr,
+                                tape: &mut self.tape,
+                                violations: &mut self.violations,
+                                stats: &mut self.stats,
+                                tick: self.tick,
+                            };
+                            dev.on_published(q, &chain, &mut ctx);
+                        }
+                        self.dev = Some(dev);
+                    }
                     let dqs = &mut self.dq[q as usize];
                     if dqs.recent.len() >= 4 {
                         dqs.recent.pop_front();
@@ -489,7 +503,17 @@ impl World {
         self.ev(0x40, q as u64, 0);
         self.tr.notifies += 1;
         if self.tr.status & ST_DRIVER_OK == 0 {
+            // A device is not required to act on (or remember) a notification it receives before
+            // DRIVER_OK; this one ignores it.
             self.tr.notify_before_driver_ok += 1;
+            if self.cfg.validate {
+                self.violation(
+                    "notify-before-driver-ok",
+                    &format!("q{q}"),
+                    format!("available-buffer notification for queue {q} sent before DRIVER_OK (status {:#x})", self.tr.status),
+                );
+            }
+            return;
         }
         if let Some(dq) = self.dq.get_mut(q as usize) {
             dq.notified = true;
@@ -647,6 +671,11 @@ impl World {
             dq.recheck = false;
         }
         self.observe_queue(q, "device-fetch");
+        if let Some(t) = &mut self.trace {
+            if t.len() < 100_000 {
+                t.push(format!("[{}] device fetches q{q}: {} new chain(s)", self.tick, self.dq[q as usize].observed.len()));
+            }
+        }
         let dq = &mut self.dq[q as usize];
         let got = dq.observed.len();
         let obs = std::mem::take(&mut dq.observed);
@@ -698,6 +727,11 @@ impl World {
             *self.stats.faults.entry("completion_reorder").or_insert(0) += 1;
         }
         self.ev(0x52, q as u64, chain.head as u64);
+        if let Some(t) = &mut self.trace {
+            if t.len() < 100_000 {
+                t.push(format!("[{}] device completes chain head {} (avail pos {}) on q{q}", self.tick, chain.head, chain.avail_pos));
+            }
+        }
         let mut dev = self.dev.take().expect("personality");
         let len = {
             let mut ctx = DevCtx {
@@ -760,6 +794,11 @@ impl World {
         }
         if new == 0 {
             *self.stats.probes.entry("used_idx_wrapped").or_insert(0) += 1;
+        }
+        if let Some(t) = &mut self.trace {
+            if t.len() < 100_000 {
+                t.push(format!("[{}] device writes used[{}] = (id {id}, len {len}), used.idx = {new} on q{q}", self.tick, slot));
+            }
         }
         self.dq[q as usize].used_idx = new;
         self.dq[q as usize].completed += 1;
